@@ -51,20 +51,22 @@ def SGroupE.pelX (s : StreamE) (g : SGroupE) : List XNack :=
   g.consumers.flatMap (fun c => (c.pel.filter s.isLive).map (fun p =>
     (⟨fmtId p.1 p.2, c.name.val, natToDec (g.nack p.1 p.2).1, natToDec (g.nack p.1 p.2).2⟩ : XNack)))
 
-/-- the consumers the TOOL's replay recreates: those that own a pending entry whose item is
-    still in the stream (XCLAIM creates a consumer when it really claims an entry). NOT
-    recreated: a consumer with an empty PEL — the tool emits no XGROUP CREATECONSUMER
-    (known finding C03-F1: the RESTORE path and Redis' own AOF rewrite keep it; see
-    `consumersIdeal`) — and a consumer all of whose pending ids point at deleted / trimmed
-    entries (no command recreates it). Seen-time / active-time are set by the target. -/
+/-- a consumer that owns a pending entry whose item is still in the stream (XCLAIM creates a
+    consumer when it really claims an entry) -/
 def SGroupE.keepsConsumer (s : StreamE) (c : SConsumerE) : Bool := c.pel.any s.isLive
 
+/-- what the tool recreated BEFORE the repair of C03-F1 (session 5), and still all that commands
+    can carry to a target older than 6.2: the owners of live pending entries. Kept for the
+    comparison with `consumersIdeal`. -/
 def SGroupE.consumersX (s : StreamE) (g : SGroupE) : List Bytes :=
   (g.consumers.filter (SGroupE.keepsConsumer s)).map (fun c => c.name.val)
 
-/-- the consumers a command replay COULD recreate on target `x`: in addition those with an
-    empty PEL when the target knows XGROUP CREATECONSUMER (6.2+). The difference to
-    `consumersX` is known finding C03-F1. -/
+/-- **the consumers the tool's replay recreates on target `x`** (since the repair of C03-F1): the
+    owners of live pending entries, and those with an EMPTY PEL when the target knows XGROUP
+    CREATECONSUMER (6.2+). NOT recreated: a consumer with an empty PEL on an older target (no command
+    exists; the RESTORE path keeps it), and a consumer all of whose pending ids point at deleted /
+    trimmed entries (no command recreates it — Redis' own AOF rewrite loses it the same way).
+    Seen-time / active-time are set by the target. -/
 def SGroupE.consumersIdeal (x : XCfg) (s : StreamE) (g : SGroupE) : List Bytes :=
   (g.consumers.filter (fun c => (x.hasCreateConsumer && c.pel.isEmpty) || c.pel.any s.isLive)).map (fun c => c.name.val)
 
@@ -90,7 +92,7 @@ def SGroupE.read (s : StreamE) (g : SGroupE) : Int :=
 def SGroupE.xgroup (x : XCfg) (s : StreamE) (g : SGroupE) : XGroup :=
   { name := g.name.val, lastId := fmtId g.lastMs g.lastSeq,
     entriesRead := if x.tgtMajor ≥ 7 then some (intToDec (g.read s)) else none,
-    pel := g.pelX s, consumers := g.consumersX s }
+    pel := g.pelX s, consumers := g.consumersIdeal x s }
 
 /-- **the logical value of a stream description** on a target of major version
     `x.tgtMajor` (the counters entries-added / max-deleted-id exist from Redis 7 on) -/
@@ -107,6 +109,8 @@ def SGroupE.cmds (x : XCfg) (s : StreamE) (k : Bytes) (g : SGroupE) : List Cmd :
   cmdB b!"XGROUP" ([b!"CREATE", k, g.name.val, fmtId g.lastMs g.lastSeq] ++
       (if x.tgtMajor ≥ 7 then [b!"ENTRIESREAD", intToDec (g.read s)] else [])) ::
     g.consumers.flatMap (fun c =>
+      (if x.hasCreateConsumer = true ∧ c.pel.length = 0 then
+         [cmdB b!"XGROUP" [b!"CREATECONSUMER", k, g.name.val, c.name.val]] else []) ++
       c.pel.map (fun p =>
         cmdB b!"XCLAIM" [k, g.name.val, c.name.val, b!"0", fmtId p.1 p.2, b!"TIME", natToDec (g.nack p.1 p.2).1,
           b!"RETRYCOUNT", natToDec (g.nack p.1 p.2).2, b!"JUSTID", b!"FORCE"]))
@@ -114,7 +118,8 @@ def SGroupE.cmds (x : XCfg) (s : StreamE) (k : Bytes) (g : SGroupE) : List Cmd :
 /-- one XADD per live entry, the `MAXLEN 0` trick for an empty stream, XSETID
     (with the counters for a target ≥ 7), then per group XGROUP CREATE and per consumer one
     XCLAIM per entry of its PEL (also for pending ids whose entry is gone: the target ignores
-    those; nothing for a consumer with an empty PEL: known finding C03-F1) -/
+    those; XGROUP CREATECONSUMER for a consumer with an empty PEL when the target is 6.2+ —
+    session 5, repair of C03-F1 — nothing for it on an older target) -/
 def StreamE.cmds (x : XCfg) (s : StreamE) (k : Bytes) : List Cmd :=
   s.nodes.flatMap (fun n => n.live.map (fun p => cmdB b!"XADD" (k :: p.1 :: p.2))) ++
   (if s.length = 0 then [cmdB b!"XADD" [k, b!"MAXLEN", b!"0", b!"0-1", b!"x", b!"y"]] else []) ++
